@@ -12,10 +12,15 @@ type Node struct {
 	IsL  bool
 }
 
-func A(s string) *Node          { return &Node{Atom: s} }
-func I(i int) *Node             { return &Node{Atom: fmt.Sprint(i)} }
-func L(xs ...*Node) *Node       { return &Node{List: xs, IsL: true} }
-func (n *Node) Head() string    { if n.IsL && len(n.List) > 0 && !n.List[0].IsL { return n.List[0].Atom }; return "" }
+func A(s string) *Node    { return &Node{Atom: s} }
+func I(i int) *Node       { return &Node{Atom: fmt.Sprint(i)} }
+func L(xs ...*Node) *Node { return &Node{List: xs, IsL: true} }
+func (n *Node) Head() string {
+	if n.IsL && len(n.List) > 0 && !n.List[0].IsL {
+		return n.List[0].Atom
+	}
+	return ""
+}
 func (n *Node) Arg(i int) *Node { return n.List[i+1] }
 func (n *Node) NArgs() int      { return len(n.List) - 1 }
 
